@@ -1144,6 +1144,11 @@ def c13(tr, cx):
             if cx['final_ok'] and len(cx['where'].get(cid, (None, [None], None))[1]) != 1: tr.v('C13', 'baulker_has_other_records', (cid,))
 
 
+def taint_open():
+    from . import taint
+    return taint.open_findings()
+
+
 # ---------------------------------------------------------------- C17 trackers
 def tracker_oracle(spec, s, blocked_rank):
     name = spec['tracker']; n = spec['n']
@@ -1243,6 +1248,37 @@ def c17(tr, cx):
         keys = set(exp) | set(k_ for k_, v in got.items() if float(v) > 1e-12)
         if any(abs(float(got.get(k_, 0)) - exp.get(k_, 0)) > 1e-7 for k_ in keys):
             tr.v('C17', 'state_probabilities_wrong', (str(a), str(b), dict(list(got.items())[:4]), dict(list(exp.items())[:4])))
+    # the default observation window (0, infinity) - the form the documentation uses. Any reading of "share of time" must
+    # stop where knowledge stops: at the last recorded state change (A) or at the final clock (B). Open finding K34: the engine
+    # instead credits the final state with the length of the *previous* sojourn (a stale loop variable); that exact formula is
+    # recognised and reported as the known finding, anything else that is neither A nor B is a violation.
+    def shares(h_, end_extra):
+        d = collections.defaultdict(lambda: num(0))
+        for (t0, st), (t1, _) in zip(h_, h_[1:]):
+            d[st] += num(t1) - num(t0)
+        d[h_[-1][1]] += end_extra
+        tot_ = sum(d.values())
+        return None if tot_ <= 0 else {k_: float(v / tot_) for k_, v in d.items()}
+    stale = shares(h, num(h[-1][0]) - num(h[-2][0]))
+    try:
+        got = cx['state_probabilities']((0, float('inf')))
+    except Exception as ex:
+        if isinstance(ex, ZeroDivisionError) and stale is None and 'K34' in taint_open():
+            # same stale term: every recorded change at one instant, so the stale term is 0 and the total 0 (0/0)
+            cx['soft']['K34'] = True; tr.count('C17.K34_unbounded_window_stale_term'); return
+        tr.v('C17', 'state_probabilities_raised', ('0', 'inf', repr(ex))); return
+    tr.count('C17.unbounded_windows')
+    got = {k_: float(v) for k_, v in got.items()}
+    def same(exp_):
+        if exp_ is None: return False
+        keys_ = set(k_ for k_, v in exp_.items() if v > 1e-12) | set(k_ for k_, v in got.items() if v > 1e-12)
+        return all(abs(got.get(k_, 0.0) - exp_.get(k_, 0.0)) <= 1e-7 for k_ in keys_)
+    reading_a = shares(h, num(0))
+    reading_b = shares(h, max(num(cx['final']['clock']) - num(h[-1][0]), num(0)))
+    if same(reading_a) or same(reading_b): return
+    if same(stale) and 'K34' in taint_open():
+        cx['soft']['K34'] = True; tr.count('C17.K34_unbounded_window_stale_term'); return
+    tr.v('C17', 'unbounded_window_probabilities_wrong', (dict(list(got.items())[:4]), dict(list((reading_a or {}).items())[:4])))
 
 
 # ---------------------------------------------------------------- C14 normal termination
